@@ -1,6 +1,8 @@
 import Driver.Util
 import EspadaVerif.Model.Pair
 import EspadaVerif.Spec.Cards
+import EspadaVerif.Model.Eval
+import EspadaVerif.Spec.Poker
 
 namespace Driver
 open EspadaVerif
@@ -42,6 +44,9 @@ def runOp1 (op : String) (a : List String) : Option String :=
   | "show_pair" => some (hex (showPair (mkPair (Card.ofCode (n 0)) (Card.ofCode (n 1)))))
   | "pair_index" =>
     some (showRes (fun c => toString c.code) ((mkPair (Card.ofCode (n 0)) (Card.ofCode (n 1))).index (n 2)))
+  | "eval7" =>
+    let cs := a.map (fun t => Card.ofCode t.toNat!)
+    some (showRes (fun i => s!"{i} {Gen.categoryNames.getD (handType i) "?"}") (eval7 cs))
   | _ => none
 
 end Driver
@@ -91,6 +96,10 @@ def specOp1 (op : String) (a : List String) : Option String :=
       | some x, some y => if x == y then none else some s!"=ok {52 * min x y + max x y}"
       | _, _ => none
     | _ => none
+  | "eval7" =>
+    let cs := a.map (fun t => (t.toNat! / 4, t.toNat! % 4))
+    let b := Spec.best cs
+    some s!"=ok {b} {Spec.categoryNames.getD (Spec.catOfClass b) "?"}"
   | _ => none
 
 def runOp (op : String) (a : List String) : String :=
